@@ -30,6 +30,8 @@ SPEC = {
 }
 SPEC['explanation'] += ' T10d: no received chunk is added to the accumulated result twice (exception lattice knows InterruptedError and the other OSError subclasses, so retry handlers are explored).'
 SPEC['decided'] += ['no chunk appended twice']
+SPEC['explanation'] += ' T14.close: only ConnectionClosed ends recv_close normally.'
+SPEC['decided'] += ['recv_close handler scope']
 MANIFEST = {
     'technique': 'resource-conservation (holder set) analysis over enumerated CFG paths with exception edges; ordering check in the send loop; writer/reader constant agreement',
     'text': ('Decides that no byte taken off the socket or out of the buffer can be lost on any path, including every '
